@@ -4,11 +4,11 @@ use super::*;
 use crate::gen::stream;
 use std::io::{self, Cursor, Read, Write as IoWrite};
 
-fn fnv_bytes(bs: &[u8]) -> u64 {
+pub(super) fn fnv_bytes(bs: &[u8]) -> u64 {
     bs.iter().fold(FNV_BASIS, |h, &x| fnv_step(h, x as u64))
 }
 
-fn show_bytes(bs: &[u8]) -> String {
+pub(super) fn show_bytes(bs: &[u8]) -> String {
     if bs.len() <= 64 {
         format!("n={} hex:{}", bs.len(), hex_bytes(bs))
     } else {
@@ -17,13 +17,13 @@ fn show_bytes(bs: &[u8]) -> String {
 }
 
 #[derive(Clone, Copy)]
-enum Ev {
+pub(super) enum Ev {
     Intr,
     Chunk(usize),
 }
 
 /// `sched:` (plain) or `sched:3,i,1` (cycled; must contain a chunk, chunks are 1..=1000000)
-fn parse_sched(t: &str) -> Option<Vec<Ev>> {
+pub(super) fn parse_sched(t: &str) -> Option<Vec<Ev>> {
     let body = t.strip_prefix("sched:")?;
     if body.is_empty() {
         return Some(vec![]);
@@ -52,11 +52,11 @@ fn parse_sched(t: &str) -> Option<Vec<Ev>> {
 }
 
 /// a reader that hands out the data according to a cycled schedule of `read()` results
-struct SchedReader<'a> {
-    data: &'a [u8],
-    pos: usize,
-    sched: Vec<Ev>,
-    i: usize,
+pub(super) struct SchedReader<'a> {
+    pub(super) data: &'a [u8],
+    pub(super) pos: usize,
+    pub(super) sched: Vec<Ev>,
+    pub(super) i: usize,
 }
 
 impl Read for SchedReader<'_> {
@@ -81,12 +81,12 @@ impl Read for SchedReader<'_> {
 }
 
 /// a sink that accepts `limit` bytes in scheduled chunk sizes, then fails (`Err`) or returns `Ok(0)`
-struct LimWriter {
-    acc: Vec<u8>,
-    limit: usize,
-    zero: bool,
-    sched: Vec<Ev>,
-    i: usize,
+pub(super) struct LimWriter {
+    pub(super) acc: Vec<u8>,
+    pub(super) limit: usize,
+    pub(super) zero: bool,
+    pub(super) sched: Vec<Ev>,
+    pub(super) i: usize,
 }
 
 impl IoWrite for LimWriter {
@@ -142,7 +142,7 @@ pub fn consistent(b: &RoaringBitmap) -> bool {
     asc && rev_ok && len_ok && mm_ok && contains_ok && rank_ok && eq_ok && ser_ok && rt_ok && nat_bytes == bytes
 }
 
-fn mode(t: &str) -> Option<bool> {
+pub(super) fn mode(t: &str) -> Option<bool> {
     match t {
         "chk" => Some(true),
         "unchk" => Some(false),
@@ -166,7 +166,7 @@ fn show_deser(chk: bool, b: &RoaringBitmap, rest: usize) -> String {
     }
 }
 
-fn u64tok(t: &str) -> Option<u64> {
+pub(super) fn u64tok(t: &str) -> Option<u64> {
     if t.is_empty() || !t.bytes().all(|c| c.is_ascii_digit()) {
         return None;
     }
